@@ -145,6 +145,10 @@ Proof. exact generated_shapes_tables_op. Qed.
 Theorem c01_modelled_functions_unchanged_tables_req : shapes_hold fn_shapes shapes_tables_req = true.
 Proof. exact generated_shapes_tables_req. Qed.
 
+(* the cargo features are independent switches with nothing on by default: a feature set of the model means exactly its cfgs *)
+Theorem c01_feature_table_unchanged : features_hold cargo_features = true.
+Proof. exact generated_features. Qed.
+
 Eval vm_compute in "ASSUMPTIONS c01_indexed_map_faithful". Print Assumptions c01_indexed_map_faithful.
 Eval vm_compute in "ASSUMPTIONS c01_text_map_faithful". Print Assumptions c01_text_map_faithful.
 Eval vm_compute in "ASSUMPTIONS c01_generated_conforms". Print Assumptions c01_generated_conforms.
@@ -162,3 +166,4 @@ Eval vm_compute in "ASSUMPTIONS c01_modelled_functions_unchanged_strings". Print
 Eval vm_compute in "ASSUMPTIONS c01_modelled_functions_unchanged_filters". Print Assumptions c01_modelled_functions_unchanged_filters.
 Eval vm_compute in "ASSUMPTIONS c01_modelled_functions_unchanged_tables_op". Print Assumptions c01_modelled_functions_unchanged_tables_op.
 Eval vm_compute in "ASSUMPTIONS c01_modelled_functions_unchanged_tables_req". Print Assumptions c01_modelled_functions_unchanged_tables_req.
+Eval vm_compute in "ASSUMPTIONS c01_feature_table_unchanged". Print Assumptions c01_feature_table_unchanged.
